@@ -9,6 +9,8 @@ import Bita.Spec.Runs
 import Bita.Spec.Resume
 import Bita.Model.Chunker
 import Bita.Spec.Chunking
+import Bita.Model.Output
+import Bita.Spec.InPlace
 import Driver.Proto
 
 open Bita Driver
@@ -77,8 +79,76 @@ def parseRdScript (s : String) : Option (List Rd) :=
 def showChunks (cs : List (Nat × Nat)) : String :=
   joinWith "," (cs.map fun (o, l) => s!"{o}:{l}")
 
+/-- bytes of abstract chunk `id` of length `size` (same function in the harness) -/
+def chunkBytes (id size : Nat) : Bytes :=
+  (List.range size).map fun j => UInt8.ofNat ((id * 37 + j * 11 + 5) % 256)
+
+/-- a tiling given as a sequence of chunk ids; sizes come from the size table -/
+def tilingIndex (sizes : List Nat) (ids : List Nat) : Index Nat :=
+  (ids.foldl (fun (acc : Index Nat × Nat) id =>
+    let sz := sizes.getD id 0
+    (acc.1.addChunk id sz [acc.2], acc.2 + sz)) ([], 0)).1
+
+def tilingBytes (sizes : List Nat) (ids : List Nat) : Bytes :=
+  (ids.map fun id => chunkBytes id (sizes.getD id 0)).flatten
+
+def showOp : ROp Nat → String
+  | .copy k sz src dest => s!"C{k}.{sz}.{src}>{joinWith "+" (dest.map toString)}"
+  | .store k sz src => s!"S{k}.{sz}.{src}"
+
+def showIo : IoOp → String
+  | .read o n => s!"R{o}.{n}"
+  | .write o d => s!"W{o}.{digest d}"
+
+/-- `C<id>.<size>.<src>><d1+d2..>` | `S<id>.<size>.<src>` -/
+def parseOp (t : String) : Option (ROp Nat) :=
+  match t.toList with
+  | 'C' :: rest =>
+    match (String.ofList rest).splitOn ">" with
+    | [a, d] =>
+      match a.splitOn "." with
+      | [k, sz, src] => do
+        some (.copy (← parseNat k) (← parseNat sz) (← parseNat src) (← if d = "-" then some [] else parseNatList d "+"))
+      | _ => none
+    | _ => none
+  | 'S' :: rest =>
+    match (String.ofList rest).splitOn "." with
+    | [k, sz, src] => do some (.store (← parseNat k) (← parseNat sz) (← parseNat src))
+    | _ => none
+  | _ => none
+
+def parseOps (s : String) : Option (List (ROp Nat)) :=
+  if s = "-" then some [] else (splitNE s ",").mapM parseOp
+
+def parseIds (s : String) : Option (List Nat) := if s = "-" then some [] else parseNatList s "."
+
 def handle (toks : List String) : Option String :=
   match toks with
+  -- reorder <sizes> <O ids> <N ids> : strip + ChunkIndex::reorder_ops
+  | ["reorder", sizes, o, n] => do
+    let sizes ← parseIds sizes
+    let oix := tilingIndex sizes (← parseIds o)
+    let nix := tilingIndex sizes (← parseIds n)
+    let (target, cnt, tot) := oix.strip nix
+    some s!"strip={cnt}.{tot} ops={joinWith "," ((reorderOps oix target).map showOp)}"
+  -- plan-safe <sizes> <O ids> <N ids> <ops> : is this op list (the implementation's) a safe plan
+  -- in the sense of Spec.InPlace.safePlan?
+  | ["plan-safe", sizes, o, n, ops] => do
+    let sizes ← parseIds sizes
+    let content := fun id => chunkBytes id (sizes.getD id 0)
+    some (toString (Spec.safePlan content (← parseIds o) (← parseIds n) (← parseOps ops)))
+  -- exec <sizes> <O ids> <N ids> : CloneOutput::reorder_in_place on a file holding tiling O
+  | ["exec", sizes, o, n] => do
+    let sizes ← parseIds sizes
+    let oids ← parseIds o
+    let oix := tilingIndex sizes oids
+    let nix := tilingIndex sizes (← parseIds n)
+    let st : OutSt Nat := ⟨tilingBytes sizes oids, nix, []⟩
+    match st.reorderInPlace oix with
+    | none => some "io-error"
+    | some (st', ret) =>
+      let left := (st'.index.keys.toArray.qsort (· < ·)).toList
+      some s!"ret={ret} left={joinWith "." (left.map toString)} file={digest st'.file} log={joinWith "," (st'.log.map showIo)}"
   -- chunk <config> <data> <read script> : model of the streaming chunker under that delivery
   | ["chunk", cfg, data, script] => do
     some (showChunks (chunkStream (← parseConfig cfg) (← parseData data) (← parseRdScript script)))
